@@ -26,6 +26,19 @@ pub const PRIMS: &[&str] = &[
     "Bool", "I8", "U8", "I16", "I32", "I64", "I128", "U16", "U32", "U64", "U128", "Usize", "Isize", "F32", "F64", "Char", "String", "ByteArray", "Unit", "Schema",
 ];
 pub fn name(r: &mut StdRng) -> String {
+    // one name in six looks like something a name-handling shortcut would treat specially: raw-identifier prefixes,
+    // keywords, surrounding blanks, case, separators, NUL, and lengths around 4/8/16/32-byte block boundaries
+    if r.gen_range(0..6) == 0 {
+        const ODD: [&str; 20] = ["r#type", "r#", "#r", "r#r#x", "type", "Self", " lead", "trail ", "UPPER", "lower", "with.dot", "a::b", "a\0b", "_", "__", "0", "ünï", "a-b", "tab\t", "\"q\""];
+        return match r.gen_range(0..3) {
+            0 => ODD[r.gen_range(0..ODD.len())].to_string(),
+            1 => {
+                let k = [3usize, 4, 5, 7, 8, 9, 15, 16, 17, 31, 32, 33][r.gen_range(0..12)];
+                (0..k).map(|_| (b'a' + r.gen_range(0..26)) as char).collect()
+            }
+            _ => format!("{}_{}", ODD[r.gen_range(0..ODD.len())], r.gen_range(0..100)),
+        };
+    }
     let n = r.gen_range(0..4);
     (0..n).map(|_| ['a', 'B', '_', 'é', '€', '😀', '0', 'x'][r.gen_range(0..8)]).collect()
 }
